@@ -777,12 +777,15 @@ func subReaderNext() mon.Sub {
 			b1, _, _ := gen.Encode(f1)
 			b2, _, _ := gen.Encode(f2)
 			plans := xport.Plans(c.Rng.Int63(), nil)
-			for _, discard := range []bool{false, true} {
+			// the first message is read to its end, or discarded after k bytes: before the first byte, in the
+			// middle of a code point, exactly on a fragment boundary (3, 6), past its end
+			for _, dk := range []int{-1, 1, 0, 3, 6, 9} {
+				discard := dk >= 0
 				c.Count(1)
 				plan := plans[(c.I+1)%len(plans)]
 				o := drive.Opts{Entry: "reader", Side: side, CheckUTF8: true, Buf: []int{1, 3, 64}[c.I%3]}
 				if discard {
-					o.Discard = map[int]int{0: 1}
+					o.Discard = map[int]int{0: dk}
 				}
 				a := drive.Run(xport.NewChunker(append(append([]byte(nil), b1...), b2...), plan), o)
 				ob := o
@@ -797,7 +800,7 @@ func subReaderNext() mon.Sub {
 				got := a.Events[len(ev1):]
 				if d := drive.Diff(got, b.Events, true); d != "" || fmt.Sprint(a.Err) != fmt.Sprint(b.Err) {
 					c.Fail(fmt.Sprintf("reader/next-message/discard=%v", discard), "a reader that finished a message reads the next one differently from a new reader: "+d,
-						map[string]interface{}{"first": gen.ShapesKey(s1), "second": gen.ShapesKey(s2), "discarded_first": discard, "side": side, "reused": drive.EventStrings(got), "fresh": drive.EventStrings(b.Events), "err_reused": fmt.Sprint(a.Err), "err_fresh": fmt.Sprint(b.Err)})
+						map[string]interface{}{"first": gen.ShapesKey(s1), "second": gen.ShapesKey(s2), "discarded_first": discard, "discarded_after_bytes": dk, "side": side, "reused": drive.EventStrings(got), "fresh": drive.EventStrings(b.Events), "err_reused": fmt.Sprint(a.Err), "err_fresh": fmt.Sprint(b.Err)})
 					return
 				}
 			}
@@ -812,7 +815,7 @@ func main() {
 		Property: "C18",
 		Level:    "exploration",
 		Rule: "differential against a freshly constructed instance with the same configuration (same destination kind, state, opcode and Size()): object A goes through a history, is reset (or put into and taken from the pool; pool shim in LIFO+poison mode so the same object comes back, poisoned), then the same operation sequence S is applied to A and to a new B and every observable is compared (return values, Buffered/Available/Size, frames reaching the destination per call with payloads unmasked). " +
-			"wsutil.Writer: histories of 0-7 random ops incl. failing destinations (one-shot or sticky), Grow, DisableFlush, SetExtensions, any side, partial messages; modes Reset / PutWriter+GetWriter / ResetOp (error-free histories; keeps extensions and flush mode); S = 1-12 random ops + Flush. wsflate.Writer.Reset after unflushed data / flushed / failed destination / closed, resettable and non-resettable compressors. wsflate.Reader.Reset after partial read / complete read / corrupt stream / failing source, intact/truncated/corrupted next stream, byte-reader and plain sources. CipherReader/Writer, UTF8Reader (mid code point, after reject), wsflate.Extension. wsutil.Reader: every ordered pair of enumerated messages, first one read or discarded after 1 byte, vs a new Reader on the second. distinct = (mode, history shape) classes.",
+			"wsutil.Writer: histories of 0-7 random ops incl. failing destinations (one-shot or sticky), Grow, DisableFlush, SetExtensions, any side, partial messages; modes Reset / PutWriter+GetWriter / ResetOp (error-free histories; keeps extensions and flush mode); S = 1-12 random ops + Flush. wsflate.Writer.Reset after unflushed data / flushed / failed destination / closed, resettable and non-resettable compressors. wsflate.Reader.Reset after partial read / complete read / corrupt stream / failing source, intact/truncated/corrupted next stream, byte-reader and plain sources. CipherReader/Writer, UTF8Reader (mid code point, after reject), wsflate.Extension. wsutil.Reader: every ordered pair of enumerated messages, first one read or discarded after 0/1/3/6/9 bytes (before it, mid code point, on a fragment boundary, past its end), vs a new Reader on the second. distinct = (mode, history shape) classes.",
 		Assumptions: []string{"for wsutil.Writer 'same configuration' includes the same Size(): a grown buffer stays grown", "UTF8Reader.Accepted() before the first read after a reset is not compared", "ResetOp is only compared after error-free histories (its documentation does not speak about errors)"},
 		Setup:       func(r *mon.Run) { pool.Configure(true, pool.ReuseLIFO, false, false) },
 		Subs:        []mon.Sub{subWriterReset(), subFlateWriter(), subFlateReader(), subSmallObjects(), subReaderNext()},
